@@ -22,6 +22,15 @@ def run(ctx):
     r = ctx.tlc("LookupSync", "LookupSync_asfound.cfg", timeout=600, label="as-found (expected: Converges violated)")
     if r.violated != "Converges":
         raise Inconclusive("LookupSync_asfound.cfg no longer exhibits the reordering (got %s)" % r.violated)
+    # a lookupd that files producers under their advertised identity instead of under the connection loses a live
+    # nsqd when it reaps that nsqd's previous, half-open connection: TLC must refute it
+    r = ctx.tlc("LookupSync", "LookupSync_keybyidentity.cfg", timeout=600, label="key-by-identity (expected: Converges violated)")
+    if r.violated != "Converges":
+        raise Inconclusive("LookupSync_keybyidentity.cfg is not refuted (got %s)" % r.violated)
+    # ... and so must an nsqd that skips its heartbeat PING for a peer that has just answered a registration
+    r = ctx.tlc("LookupSync", "LookupSync_skipping.cfg", timeout=600, label="skip-ping-when-busy (expected: Refreshed violated)")
+    if r.violated != "Refreshed":
+        raise Inconclusive("LookupSync_skipping.cfg is not refuted (got %s)" % r.violated)
     cases = []
     for i in range(2):
         cases.append({"kind": "reorder", "seed": i, "nlookupd": 1 + i % 2, "fails": []})
@@ -29,6 +38,9 @@ def run(ctx):
     cases.append({"kind": "precreate2", "seed": 1, "nlookupd": 2, "fails": []})
     cases.append({"kind": "badident", "seed": 1, "nlookupd": 1, "fails": []})
     cases.append({"kind": "badident", "seed": 2, "nlookupd": 2, "fails": []})
+    cases.append({"kind": "churnping", "seed": 1, "nlookupd": 1, "fails": []})
+    cases.append({"kind": "halfopen", "seed": 1, "nlookupd": 1, "fails": []})
+    cases.append({"kind": "halfopen", "seed": 2, "nlookupd": 2, "fails": []})
     for i in range(10 if quick else 120):
         cases.append({"kind": "random", "seed": ctx.seed * 1000 + i, "nlookupd": 1 + i % 2, "fails": []})
     h = ctx.harness("core")
